@@ -186,7 +186,7 @@ print("RESULT " + json.dumps({"end": end, "out": out, "exc": exc}))
 
 def real_run(args):
     p = subprocess.run([sys.executable, "-c", REAL_CHILD, json.dumps(args)], stdout=subprocess.PIPE, stderr=subprocess.DEVNULL,
-                       timeout=600, cwd="/repo")
+                       timeout=600, cwd=os.environ.get("VERIF_REPO", "/repo"))
     for line in p.stdout.decode().splitlines():
         if line.startswith("RESULT "):
             return json.loads(line[7:])
